@@ -78,7 +78,17 @@ def write_variants(d, recs, encoding, rng):
 def read_all(path, encoding, prefixcount):
     from lib_trainer.trainer_file_input import TrainerFileInput
     tfi = TrainerFileInput(path, encoding, prefixcount)
-    seq = list(tfi.read_password())
+    seq = []
+    try:
+        for pw in tfi.read_password():
+            seq.append(pw)
+    except Exception as ex:
+        # unusable lines are "skipped and counted without aborting training": a reader that raises has aborted it.  The sequence
+        # read so far is returned (it is not the meant one) and the raise is reported on its own
+        if len(core.PENDING_RAISES) < 10:
+            core.PENDING_RAISES.append({'error': repr(ex), 'clause': 'C19_reading_never_aborts', 'via': 'TrainerFileInput.read_password',
+                                        'file': os.path.basename(path), 'encoding': encoding, 'prefixcount': prefixcount, 'read_before_the_raise': len(seq)})
+        seq.append('\x00reader raised')
     return seq, tfi.num_passwords, tfi.num_encoding_errors
 
 
